@@ -17,6 +17,7 @@ import (
 	"slices"
 	"strings"
 	"sync"
+	"unicode"
 )
 
 // Equal reports whether two Go values representing JSON values are equal according
@@ -494,7 +495,8 @@ func fieldJSONInfo(f reflect.StructField) jsonInfo {
 		if name == "-" && !found {
 			return jsonInfo{omit: true}
 		}
-		if name != "" {
+		// Like encoding/json, ignore a name that is not a valid tag name.
+		if isValidTag(name) {
 			info.name = name
 		}
 		if len(rest) > 0 {
@@ -505,6 +507,26 @@ func fieldJSONInfo(f reflect.StructField) jsonInfo {
 		}
 	}
 	return info
+}
+
+// isValidTag reports whether s is a name that encoding/json accepts in a
+// struct tag; for any other name it uses the Go field name.
+// It is a copy of the unexported function of the same name in encoding/json.
+func isValidTag(s string) bool {
+	if s == "" {
+		return false
+	}
+	for _, c := range s {
+		switch {
+		case strings.ContainsRune("!#$%&()*+-./:;<=>?@[]^_{|}~ ", c):
+			// Backslash and quote chars are reserved, but
+			// otherwise any punctuation chars are allowed
+			// in a tag name.
+		case !unicode.IsLetter(c) && !unicode.IsDigit(c):
+			return false
+		}
+	}
+	return true
 }
 
 // wrapf wraps *errp with the given formatted message if *errp is not nil.
